@@ -179,8 +179,11 @@ def key_of(obj):
 # --------------------------------------------------------------------------------------------------------
 UNITS = ("B", "KB", "MB", "GB", "TB", "PB")
 PARTITIONS = ("gpu", "cpu-long", "debug", "p1")
-EXTRA_KEYS = ("qos", "constraint", "account", "exclusive", "foo", "bar_baz")
-NONFIELD_KEYS = ("foo", "qos", "account", "reservation", "x1")
+# (the last ones are spelled like the flags pipefunc itself emits for memory / time / gpus / nodes / cpus / partition: an
+#  extra argument of that name - e.g. from update(mem=...), where unknown keywords become extra arguments - must not make
+#  the quantity that IS set disappear from the options)
+EXTRA_KEYS = ("qos", "constraint", "account", "exclusive", "foo", "bar_baz", "mem", "time", "gres", "nodes", "cpus-per-task", "partition")
+NONFIELD_KEYS = ("foo", "qos", "account", "reservation", "x1", "mem", "gres")
 
 
 def case_variants(unit):
